@@ -80,4 +80,12 @@ def run(out, tier, seed):
             else:
                 evs.append(rng.choice(READS(n, M)))
         jobs.append({"cfg": {"vocab": ["plain", "falsy", "hostile"][i % 3]}, "events": evs})
+    # lists longer than the interpreter's recursion limit: every operation walks the chain, none of them by recursion
+    import sys as _sys
+    L_ = _sys.getrecursionlimit() + 150
+    long_items = [M[i % len(M)] for i in range(L_)]
+    for hist in ([{"op": "len"}, {"op": "clear"}, {"op": "len"}, {"op": "append", "x": M[0]}, {"op": "iter"}],
+                 [{"op": "append", "x": M[1]}, {"op": "delitem", "i": L_ - 40}, {"op": "getitem", "i": L_ - 2}, {"op": "setitem", "i": L_ - 3, "x": M[0]}, {"op": "len"}, {"op": "clear"}, {"op": "iter"}],
+                 [{"op": "iadd", "xs": [M[0], M[1]]}, {"op": "index", "x": M[1]}, {"op": "contains", "x": M[0]}, {"op": "delitem", "i": 0}, {"op": "len"}]):
+        jobs.append({"cfg": {"vocab": "plain", "head": "bnode"}, "events": [{"op": "new", "items": long_items}] + hist})
     out.conform(__name__, TRACE, jobs, nontrivial=nontrivial, chunk=1500)
